@@ -91,3 +91,24 @@ impl TimeZoneProvider for SynthProvider<'_> {
         r.map(EpochNanoseconds::try_from).transpose()
     }
 }
+
+/// The same harness-owned zone through a provider that does not say where an offset period starts
+/// (`transition_epoch: None`, which the provider interface allows).
+pub struct SilentProvider<'a> {
+    pub inner: SynthProvider<'a>,
+}
+
+impl TimeZoneProvider for SilentProvider<'_> {
+    fn check_identifier(&self, id: &str) -> bool {
+        self.inner.check_identifier(id)
+    }
+    fn get_named_tz_epoch_nanoseconds(&self, id: &str, local: IsoDateTime) -> TemporalResult<Vec<EpochNanoseconds>> {
+        self.inner.get_named_tz_epoch_nanoseconds(id, local)
+    }
+    fn get_named_tz_offset_nanoseconds(&self, id: &str, t: i128) -> TemporalResult<TimeZoneOffset> {
+        self.inner.get_named_tz_offset_nanoseconds(id, t).map(|o| TimeZoneOffset { transition_epoch: None, offset: o.offset })
+    }
+    fn get_named_tz_transition(&self, id: &str, t: i128, dir: TransitionDirection) -> TemporalResult<Option<EpochNanoseconds>> {
+        self.inner.get_named_tz_transition(id, t, dir)
+    }
+}
